@@ -76,6 +76,41 @@ theorem map_heap_agree_full_false :
      | _ => false) = true := by decide
 
 
+
+/-- `IndexOK` along **every** schedule of the patched code in which no object is pushed onto the heap
+while it is already there (`NoDupPush`): pending continuations, Empty, late answers — none of them can
+make an index field wrong; only a double push can (next theorem) -/
+theorem index_ok_invariant (sched : List InFlight.Step) (s s' : InFlight.St) (ok : InFlight.IndexOK s.h)
+    (hnd : Nsq.Proofs.InFlight.NoDupPush s sched) (hr : InFlight.run true s sched = InFlight.Res.ok s') :
+    InFlight.IndexOK s'.h :=
+  Nsq.Proofs.InFlight.run_indexOK sched s s' ok hnd hr
+
+/-- the remaining counter-example for `IndexOK` at quiescence: an answer (REQ 0) naming an id whose
+(re)delivery is between map insert and heap insert puts the object back on the queue while the parked
+delivery still pushes it; the next delivery pushes it a second time → two heap slots, one index -/
+def duplicateSchedule : List InFlight.Step :=
+  [.put 1, .startMapPush 1 1 10, .reqPop 1 1 0, .reqRemove 1, .reqPut 1, .startPQPush 1,
+   .startMapPush 1 1 20, .startPQPush 1]
+
+theorem index_ok_full_false :
+    (match InFlight.run true (InFlight.initSt []) duplicateSchedule with
+     | InFlight.Res.ok s => s.conts.isEmpty && decide (s.h.pq = [1, 1]) && decide (s.map = [1]) && !(InFlight.indexOkB s.h)
+     | _ => false) = true := by decide
+
+/-- the second remaining counter-example for `MapHeapAgree` (besides `zombieSchedule`): a FIN naming an
+id whose delivery is between map insert and heap insert — the heap keeps an entry the map has lost -/
+def lateAnswerSchedule : List InFlight.Step :=
+  [.put 1, .startMapPush 1 1 10, .finPop 1 1, .finRemove 1, .startPQPush 1]
+
+theorem map_heap_agree_late_answer :
+    (match InFlight.run true (InFlight.initSt []) lateAnswerSchedule with
+     | InFlight.Res.ok s => s.conts.isEmpty && s.map.isEmpty && decide (s.h.pq = [1]) && InFlight.indexOkB s.h
+     | _ => false) = true := by decide
+
+example : Nsq.Proofs.InFlight.NoDupPush (InFlight.initSt []) zombieSchedule := by
+  simp [Nsq.Proofs.InFlight.NoDupPush, Nsq.Proofs.InFlight.pushes, zombieSchedule, InFlight.step, InFlight.initSt,
+    InFlight.okH, InFlight.push, InFlight.up, InFlight.dropCont]
+
 /-! ### the heap code maintains its index fields (all heaps, all arguments) -/
 
 /-- `Push(x)` of an object not in the heap: afterwards every slot's object carries that slot's index -/
@@ -408,6 +443,42 @@ example : (getChan (step demo (.unsub "t" "e#" 8)).1 "t" "e#").map (·.exiting) 
 example : persisted demo = [("t", false, [("c", false)])] := by decide
 example : (getTopic (step demo (.deleteTopic "t")).1 "t") = none ∧
     (step demo (.deleteTopic "t")).1.closed = [7, 8] ∧ (step demo (.deleteTopic "t")).1.files = [] := by decide
+
+/-- **no delivery after discard**: once `Channel.Empty` has run, an id `x` that is not waiting in the
+topic's own queue (it had been fanned out) nor in an orphaned disk queue is never accepted for delivery
+on that channel again — whatever history follows (any operations on any objects, including deleting
+and re-creating the channel or the topic), as long as `x` is not published to the topic again (ids
+are fresh, C12) -/
+theorem no_delivery_after_discard (s : St) (t c : String) (x : Nat) (C : Chan)
+    (hC : getChan s t c = some C) (hx : C.exiting = false)
+    (hq : ∀ T ∈ s.topics, T.name = t → ∀ m ∈ T.queue, m.id ≠ x)
+    (ho : ∀ e ∈ s.orphans, ∀ m ∈ e.2, m.id ≠ x)
+    (ops : List Op) (hno : ∀ o ∈ ops, NoPub o t x) (k : Nat) (fm : Bool) :
+    (step (run (step s (.emptyChan t c)).1 ops) (.deliver t c k fm x)).2 ≠ Ans.ok := by
+  apply deliver_absent
+  apply absent_run ops _ t c x _ hno
+  have e1 : (step s (.emptyChan t c)).1 =
+      { modChan s t c Chan.empty with files := removeFiles s.files (t, some c) } := by
+    simp [step, hC, hx]
+  rw [e1]
+  exact absent_after_clear s t c x Chan.empty empty_name (fun _ => rfl) hq ho
+
+/-- the same after a delete (`Channel.Delete()`, then the unlink, then anything — e.g. re-creation) -/
+theorem no_delivery_after_delete (s : St) (t c : String) (x : Nat) (C : Chan)
+    (hC : getChan s t c = some C) (hx : C.exiting = false)
+    (hq : ∀ T ∈ s.topics, T.name = t → ∀ m ∈ T.queue, m.id ≠ x)
+    (ho : ∀ e ∈ s.orphans, ∀ m ∈ e.2, m.id ≠ x)
+    (ops : List Op) (hno : ∀ o ∈ ops, NoPub o t x) (k : Nat) (fm : Bool) :
+    (step (run (step s (.deleteChanBegin t c)).1 ops) (.deliver t c k fm x)).2 ≠ Ans.ok := by
+  apply deliver_absent
+  apply absent_run ops _ t c x _ hno
+  rw [delete_begin_eq s t c C hC hx]
+  exact absent_after_clear s t c x Chan.deleteBegin deleteBegin_name (fun _ => rfl) hq ho
+
+/-- non-vacuity: in `demo` id 11 is in flight on t:c, the topic queue is empty, no orphans -/
+example : (step demo (.deliver "t" "c" 7 false 12)).2 = Ans.ok ∧
+    (step (run (step demo (.emptyChan "t" "c")).1 [.pub "t" m2, .pump "t", .deleteChanBegin "t" "c", .deleteChanUnlink "t" "c",
+      .createChan "t" "c" false, .sub "t" "c" 9]) (.deliver "t" "c" 9 true 11)).2 = Ans.notAllowed := by decide
 
 end atomic
 
